@@ -33,8 +33,17 @@ type NodesWithTagPathExpr struct{}
 func (e *NodesWithTagPathExpr) Evaluate(engine *Engine, input interface{}, args []*Statement) (interface{}, error) {
 	in := reflect.ValueOf(input)
 
-	if input == nil || in.IsNil() {
+	if input == nil {
 		return gedcom.Nodes(nil), nil
+	}
+
+	// Only some kinds of values can be nil (asking any other kind panics).
+	switch in.Kind() {
+	case reflect.Chan, reflect.Func, reflect.Interface, reflect.Map,
+		reflect.Ptr, reflect.Slice:
+		if in.IsNil() {
+			return gedcom.Nodes(nil), nil
+		}
 	}
 
 	// Convert into a slice if needed.
@@ -63,7 +72,13 @@ func (e *NodesWithTagPathExpr) Evaluate(engine *Engine, input interface{}, args 
 	// Process slice input.
 	var results gedcom.Nodes
 	for i := 0; i < in.Len(); i++ {
-		node := in.Index(i).Interface().(gedcom.Node)
+		node, ok := in.Index(i).Interface().(gedcom.Node)
+		if !ok {
+			return gedcom.Nodes(nil),
+				fmt.Errorf("NodesWithTagPath() expects nodes, got %s",
+					in.Index(i).Type())
+		}
+
 		results = append(results, gedcom.NodesWithTagPath(node, argValues...)...)
 	}
 
